@@ -7,6 +7,8 @@ import Mimium.Proofs.PublishOk
 import Mimium.Proofs.PublishPrune
 import Mimium.Proofs.PublishMono
 import Mimium.Proofs.PublishZ
+import Mimium.Proofs.FlatTreeArmsRun
+import Mimium.Proofs.PublishArms
 /-!
 # C05 — compile-time state layout matches run-time state accesses
 
@@ -63,11 +65,33 @@ and the `Visits` / `Covers` / `LNode.Ok` hypotheses above are PROVED for it: `C0
 defined, no recursion).  `C05_published_instance_is_flat_call_stateless_arms` proves the main corollary for the WIDER class
 `noStatefulInArmsN` (calls of functions without state allowed inside `if` arms — everything outside finding F3's class; the
 reference semantics creates a stateless child node only when the arm runs, so the statement is about flat images instead
-of trees; `C05_wider_class`: the narrow class is contained).  Outside the class the layout is not visited in order:
-`C05_state_in_arms_not_visited` (finding F3 at model level).
-NOT proved: that the Rust `mirgen` computes `publishFn` (corresponded, not proved); the agreement corollaries
-(`…_same_words_same_eval_future`, `…_eval_respects_agreement`, `…_state_effect_is_tree_ops`) are proved for the narrow class
-only (their `Covers` / tree-equality statements exclude call sites without a cell); and that returned values have the word
+of trees; `C05_wider_class`: the narrow class is contained).
+
+## state inside `if` arms — no class condition (added with the repair of finding F3)
+
+The repaired compiler publishes the cells of BOTH arms of an `if` (condition ++ `then` ++ `else`; `pubE` follows it), so
+every stateful site owns its own cell (`C05_state_in_arms_own_cells`, the former witness of F3) and one call reaches, in
+layout order, the cells outside arms and those of the arms taken.  Payloads mark the cells not reached with `CPay.skip`
+(`treeCell c .skip` = identity, `flatCell c .skip` = no instruction).  Proved for EVERY program (only `SitesUnique` /
+`SitesOk` and `publishFnN n P d = some lay` are left as hypotheses):
+* run-time judge: `C05_selected_trace_sound` (what `conformsSel` accepts is an in-order sub-selection — `List.Sublist` — of
+  the accesses the layout prescribes, each one a leaf cell of the right kind at its layout offset inside `total_size`, cursor
+  0), `C05_selected_trace_self_first_last`, `C05_conforming_trace_is_selected` (the strict judge is the special case);
+* `C05_eval_state_effect_is_tree_ops_arms` (induction over the fuel, all 18 constructs): for `VisitsA P e seg` the state
+  effect of `Core.eval` IS `treeCells seg ps`, `ps` skipping exactly the cells of the arms not taken
+  (`C05_visits_is_visitsA`: `Visits` is the special case);
+* `C05_flat_eq_tree_arms`: `C05_flat_eq_tree` for payloads that skip cells — accesses = `self` read, the accesses of the
+  cells reached, `self` write, a `Sublist` of `expectedTrace lay.sk`, in bounds, cursor restored, `serialize` commutes;
+  `C05_eval_instance_is_flat_call_arms`;
+* `C05_publish_visits_arms` (whatever `pubE` publishes is `VisitsA`-visited), `C05_publishFn_covers_arms`, and the
+  corollaries **`C05_published_instance_is_flat_call_arms`** (the flat-call simulation at the published offsets, tree
+  equality, no `noStateInArmsN` / `noStatefulInArmsN`), `C05_published_state_effect_is_tree_ops_arms`,
+  `C05_published_same_words_same_eval_future_arms`, `C05_published_eval_respects_agreement_arms`.
+NOT proved: that the Rust `mirgen` computes `publishFn` (corresponded, not proved); that the accesses of a call with a
+skipping payload are accepted by the GREEDY executable judge `conformsSel` (proved: they are a `Sublist` of the expected
+trace with `self` first and last, which is what the judge's soundness theorem states; the judge itself is applied to the
+real VM's traces); `match` is not a construct of the reference semantics (its arms are corresponded on VM vs WASM, C01);
+and that returned values have the word
 count of their `Feed` cell (`NPayOk`, a typing fact; soundness of the type checker is not proved, see C03).
 -/
 namespace Mimium.Layout
@@ -83,6 +107,45 @@ theorem C05_conforming_trace_sound (sk : Sk) (trace : List Access) (cursor : Nat
   rw [h.1] at ha
   have := expected_sound sk 0 hw a ha
   exact ⟨this.1, by omega⟩
+
+/-- **soundness of the generalised checker (state inside `if` / `match` arms).**  A call need not touch every cell: it
+touches, in layout order, the cells outside arms and those of the arms taken.  A trace accepted by `conformsSel` leaves the
+cursor at 0, is an in-order sub-selection of the accesses the layout prescribes (`List.Sublist`), and so touches, access by
+access, exactly the words of a leaf cell of the right kind at its layout offset, inside `total_size` -/
+theorem C05_selected_trace_sound (sk : Sk) (trace : List Access) (cursor : Nat)
+    (hw : WF sk = true) (h : conformsSel sk trace cursor = true) :
+    cursor = 0 ∧ trace.Sublist (expectedTrace sk 0) ∧ ∀ a ∈ trace, TouchesLeaf sk 0 a ∧ a.pos + a.size ≤ sk.size := by
+  obtain ⟨hc, hs⟩ := conformsSel_sublist sk trace cursor h
+  refine ⟨hc, hs, fun a ha => ?_⟩
+  have := expected_sound sk 0 hw a (hs.subset ha)
+  exact ⟨this.1, by omega⟩
+
+/-- an accepted call of a function instance with `self` reads `self` first and writes it last, at the start of the region -/
+theorem C05_selected_trace_self_first_last (s : Nat) (rest : List Sk) (trace : List Access) (cursor : Nat)
+    (h : conformsSel (.fn (.feed s :: rest)) trace cursor = true) :
+    ∃ mid, trace = ⟨.get, 0, s⟩ :: mid ++ [⟨.set, 0, s⟩] := by
+  simp only [conformsSel, rootEntered, Bool.and_eq_true, decide_eq_true_eq, beq_iff_eq] at h
+  obtain ⟨⟨hg, hsel⟩, _⟩ := h
+  simp only [selTrace, hg, if_true, Nat.zero_add] at hsel
+  cases hr : selTraceL rest s trace.tail with
+  | none => simp [hr] at hsel
+  | some t1 =>
+    simp only [hr] at hsel
+    split at hsel
+    · rename_i hs
+      simp only [Option.some.injEq] at hsel
+      obtain ⟨pre1, e1, _⟩ := selTraceL_sublist rest s trace.tail t1 hr
+      refine ⟨pre1, ?_⟩
+      have e2 := head?_eq_some hs
+      rw [hsel] at e2
+      rw [head?_eq_some hg, e1, e2]
+      simp
+    · simp at hsel
+
+/-- the strict checker is the special case in which no cell is skipped: whatever it accepts, the generalised statement holds -/
+theorem C05_conforming_trace_is_selected (sk : Sk) (trace : List Access) (cursor : Nat)
+    (h : conforms sk trace cursor = true) : cursor = 0 ∧ trace.Sublist (expectedTrace sk 0) :=
+  conforms_sublist sk trace cursor h
 
 /-- the expected trace itself stays inside the storage sized from the layout (`execute_idx` sizes it with `total_size`) -/
 theorem C05_expected_in_bounds (sk : Sk) (b : Nat) (hw : WF sk = true) :
@@ -109,6 +172,20 @@ example :
     WF sk = true ∧
     expectedTrace sk 0 = [⟨.get, 0, 2⟩, ⟨.mem, 2, 1⟩, ⟨.set, 0, 2⟩, ⟨.delay, 3, 5⟩, ⟨.get, 8, 1⟩, ⟨.mem, 9, 1⟩, ⟨.set, 8, 1⟩] ∧
     sk.size = 10 := by
+  decide +kernel
+
+/-! non-vacuity of the generalised checker: `dsp() = if c { counter() } else { counter()*100 } ; mem` — layout
+`F[F[feed 1], F[feed 1], mem]`: a call in which the `else` arm runs touches the second instance and the `mem`; the strict
+checker rejects it; entering an instance without writing `self` back, an access at a wrong offset, or out of order is rejected -/
+example :
+    let sk := Sk.fn [.fn [.feed 1], .fn [.feed 1], .mem 1]
+    conformsSel sk [⟨.get, 1, 1⟩, ⟨.set, 1, 1⟩, ⟨.mem, 2, 1⟩] 0 = true ∧
+    conformsSel sk [⟨.get, 0, 1⟩, ⟨.set, 0, 1⟩, ⟨.mem, 2, 1⟩] 0 = true ∧
+    conforms sk [⟨.get, 1, 1⟩, ⟨.set, 1, 1⟩, ⟨.mem, 2, 1⟩] 0 = false ∧
+    conformsSel sk [⟨.get, 1, 1⟩, ⟨.mem, 2, 1⟩] 0 = false ∧
+    conformsSel sk [⟨.get, 1, 1⟩, ⟨.set, 1, 1⟩, ⟨.mem, 3, 1⟩] 0 = false ∧
+    conformsSel sk [⟨.mem, 2, 1⟩, ⟨.get, 1, 1⟩, ⟨.set, 1, 1⟩] 0 = false ∧
+    conformsSel sk [⟨.get, 1, 1⟩, ⟨.set, 1, 1⟩, ⟨.mem, 2, 1⟩] 1 = false := by
   decide +kernel
 
 end Mimium.Layout
@@ -334,6 +411,77 @@ theorem C05_eval_instance_is_flat_call (fuel : Nat) (P : Prog) (rt : Rt) (env : 
   have := C05_flat_eq_tree lay ⟨v, ps⟩ st pre post hl hc hpay
   rw [he]
   exact ⟨this.2.2.1, this.1, this.2.2.2⟩
+
+/-! ### state inside `if` arms (after the repair of finding F3): no class condition
+
+The compiler publishes the cells of both arms of an `if` (`VisitsA`: condition ++ `then` ++ `else`); one call reaches the
+cells outside arms and those of the arms taken, the others are skipped (`CPay.skip`: no tree operation, no instruction). -/
+
+/-- **the evaluator's state effect is the tree operations of the cells reached — state inside `if` arms included.**
+If `e` visits the cells `seg` in the sense of `VisitsA` (the cells of both arms of every `if` are listed), a successful
+evaluation changes the state of the current function instance exactly as `treeCells seg ps` does, for a payload `ps` shaped
+like `seg` in which the cells of the arms NOT taken are marked `skip` (induction on the fuel over all 18 constructs) -/
+theorem C05_eval_state_effect_is_tree_ops_arms (P : Prog) (rt : Rt) (fuel : Nat) (e : Expr) (seg : List LCell) (env : Env)
+    (σ : Store) (st : SNode) (v : Val) (σ' : Store) (st' : SNode)
+    (hv : VisitsA P e seg) (h : eval fuel P rt env e σ st = .ok (v, σ', st')) :
+    ∃ ps, PayShapeAL seg ps ∧ st' = (treeCells seg ps st).1 :=
+  (eval_visitsA P rt fuel).1 e seg env σ st v σ' st' hv h
+
+/-- the strict discipline is the special case: arms without cells -/
+theorem C05_visits_is_visitsA (P : Prog) (e : Expr) (seg : List LCell) (h : Visits P e seg) : VisitsA P e seg :=
+  visitsA_of_visits P h
+
+/-- **flat = serialised tree, one whole call that skips cells.**  As `C05_flat_eq_tree`, for a payload in which cells may
+be skipped (`NPayOkA`): the state instructions of the call (a) perform `self`-read, the accesses of the cells reached,
+`self`-write — altogether an in-order sub-selection (`List.Sublist`) of the accesses the layout prescribes —, (b) every
+access inside the region, (c) the cursor returns, (d) they run without leaving the storage, leave `pre` / `post` untouched and
+turn `serialize lay st` into `serialize lay st'`, `st'` the tree after the evaluator's operations at the cells reached (the
+words of skipped cells stay what they are), with the same outputs, and (e) `st'` conforms again -/
+theorem C05_flat_eq_tree_arms (lay : LNode) (pay : NPay) (st : SNode) (pre post : List UInt64)
+    (hl : lay.Ok) (hc : Conforms lay st) (hp : NPayOkA lay pay) :
+    accessesOf pre.length (flatNode lay pay) =
+      selfGetAcc lay.self pre.length ++ accessesOf pre.length (flatCells lay.cells pay.cells (selfSize lay.self)) ++
+        selfSetAcc lay.self pre.length ∧
+    (accessesOf pre.length (flatNode lay pay)).Sublist (expectedTrace lay.sk pre.length) ∧
+    (∀ a ∈ accessesOf pre.length (flatNode lay pay),
+      pre.length ≤ a.pos ∧ a.pos + a.size ≤ pre.length + (serialize lay st).length) ∧
+    cursorAfter pre.length (flatNode lay pay) = pre.length ∧
+    vmRun ⟨pre.length, pre ++ serialize lay st ++ post⟩ (flatNode lay pay) =
+      some (⟨pre.length, pre ++ serialize lay (treeNode lay pay st).1 ++ post⟩, (treeNode lay pay st).2) ∧
+    Conforms lay (treeNode lay pay st).1 := by
+  have h := flat_nodeA lay pay st pre post hl hc hp
+  obtain ⟨hacc, hsub, hcur⟩ := acc_nodeA lay pay pre.length hp
+  refine ⟨hacc, hsub, ?_, hcur, h.1, h.2⟩
+  intro a ha
+  rw [C05_serialize_size lay st hc]
+  exact C05_expected_in_bounds lay.sk pre.length (LNode.sk_WF lay) a (hsub.subset ha)
+
+/-- a payload of the strict discipline (no cell skipped) is one of the general one -/
+theorem C05_full_payload_is_arms_payload (lay : LNode) (pay : NPay) (h : NPayOk lay pay) : NPayOkA lay pay :=
+  ⟨h.1, payOkA_of_payOk.payOkAL_of_payOkL lay.cells pay.cells h.2⟩
+
+/-- **one sample of a function instance: reference evaluator = flat machine, state inside `if` arms included.**  As
+`C05_eval_instance_is_flat_call` with `VisitsA` in place of `Visits`: the payload the evaluation computes skips the cells of
+the arms not taken; the flat call performs an in-order sub-selection of `expectedTrace lay.sk`, in bounds, cursor restored,
+and leaves the flat image of the next tree, which conforms again -/
+theorem C05_eval_instance_is_flat_call_arms (fuel : Nat) (P : Prog) (rt : Rt) (env : Env) (σ : Store) (lay : LNode)
+    (body : Expr) (st : SNode) (v : Val) (σ' : Store) (st1 : SNode)
+    (hl : lay.Ok) (hc : Conforms lay st) (hvis : VisitsA P body lay.cells)
+    (h : eval fuel P rt env body σ (initSelf lay.self st) = .ok (v, σ', st1)) :
+    ∃ ps, PayShapeAL lay.cells ps ∧ finSelf lay.self st1 v = (treeNode lay ⟨v, ps⟩ st).1 ∧
+      (NPayOkA lay ⟨v, ps⟩ → ∀ pre post : List UInt64,
+        vmRun ⟨pre.length, pre ++ serialize lay st ++ post⟩ (flatNode lay ⟨v, ps⟩) =
+          some (⟨pre.length, pre ++ serialize lay (finSelf lay.self st1 v) ++ post⟩, (treeNode lay ⟨v, ps⟩ st).2) ∧
+        (accessesOf pre.length (flatNode lay ⟨v, ps⟩)).Sublist (expectedTrace lay.sk pre.length) ∧
+        (∀ a ∈ accessesOf pre.length (flatNode lay ⟨v, ps⟩),
+          pre.length ≤ a.pos ∧ a.pos + a.size ≤ pre.length + (serialize lay st).length) ∧
+        cursorAfter pre.length (flatNode lay ⟨v, ps⟩) = pre.length ∧
+        Conforms lay (finSelf lay.self st1 v)) := by
+  obtain ⟨ps, hp, he⟩ := treeNode_of_effA lay st v st1 ((eval_visitsA P rt fuel).1 body _ env σ _ v σ' st1 hvis h)
+  refine ⟨ps, hp, he, fun hpay pre post => ?_⟩
+  have := C05_flat_eq_tree_arms lay ⟨v, ps⟩ st pre post hl hc hpay
+  rw [he]
+  exact ⟨this.2.2.2.2.1, this.2.1, this.2.2.1, this.2.2.2.1, this.2.2.2.2.2⟩
 
 /-! non-vacuity of `Visits`: the body `self + (mem(x) + f(delay(3, x, 1)))` with `f(y) = mem(y)` visits
 `[mem 0, delay 1 3, child 2 [mem 0]]` -/
@@ -580,6 +728,108 @@ theorem C05_published_instance_is_flat_call_stateless_arms (fuel n : Nat) (P : P
   refine ⟨by rw [hser]; exact hrun, by rw [htr]; exact hacc, C05_expected_in_bounds (publishedSk lay) pre.length hwf,
     by rw [hsz]; exact C05_serialize_size lay st hc, conforms_same lay _ _ hsame'.symm hconf⟩
 
+/-! ### no class condition (after the repair of finding F3) -/
+
+/-- **the published layout is reached in order, for EVERY program**: whatever `pubE` publishes for an expression — the
+cells of the condition, of the `then` arm and of the `else` arm of every `if` — is `VisitsA`-visited by it -/
+theorem C05_publish_visits_arms (n : Nat) (P : Prog) (e : Expr) (seg : List LCell) (hpub : publishEN n P e = some seg) :
+    VisitsA P e seg := publishEN_visitsA n P e seg hpub
+
+/-- `C05_eval_state_effect_is_tree_ops_arms` for the cells published for ANY expression of ANY program -/
+theorem C05_published_state_effect_is_tree_ops_arms (n : Nat) (P : Prog) (rt : Rt) (fuel : Nat) (e : Expr)
+    (seg : List LCell) (env : Env) (σ : Store) (st : SNode) (v : Val) (σ' : Store) (st' : SNode)
+    (hpub : publishEN n P e = some seg) (h : eval fuel P rt env e σ st = .ok (v, σ', st')) :
+    ∃ ps, PayShapeAL seg ps ∧ st' = (treeCells seg ps st).1 :=
+  C05_eval_state_effect_is_tree_ops_arms P rt fuel e seg env σ st v σ' st' (C05_publish_visits_arms n P e seg hpub) h
+
+/-- **one sample of any function instance: reference evaluator = flat machine at the published offsets — no class
+condition** (`C05_published_instance_is_flat_call` without `noStateInArmsN`: stateful constructs inside `if` arms allowed).
+For every program `P`, function `d`, call depth `n` with `publishFnN n P d = some lay` and unique sites: one sample of an
+instance of `d` in the reference semantics and the state instructions of the call — every cell bracketed by push / pop of
+its published offset, the cells of the arms not taken skipped —, run on the flat image `serialize lay st` anywhere in a
+larger storage, commute with `serialize` (tree equality, as in the narrow class); the accesses are an in-order
+sub-selection of those the PUBLISHED skeleton prescribes at that base (`self` first and last), every one inside the region
+of `total_size` words, the cursor returns, the rest of the storage is untouched, and the next tree conforms again -/
+theorem C05_published_instance_is_flat_call_arms (fuel n : Nat) (P : Prog) (d : FnDecl) (lay : LNode)
+    (rt : Rt) (env : Env) (σ : Store) (st : SNode) (v : Val) (σ' : Store) (st1 : SNode)
+    (hpub : publishFnN n P d = some lay) (hs : SitesUnique P) (hd : SitesOk d.body)
+    (hc : Conforms lay st)
+    (h : eval fuel P rt env d.body σ (initSelf d.selfShape st) = .ok (v, σ', st1)) :
+    ∃ ps, PayShapeAL lay.cells ps ∧ finSelf d.selfShape st1 v = (treeNode lay ⟨v, ps⟩ st).1 ∧
+      (NPayOkA lay ⟨v, ps⟩ → ∀ pre post : List UInt64,
+        vmRun ⟨pre.length, pre ++ serialize lay st ++ post⟩ (flatNode lay ⟨v, ps⟩) =
+          some (⟨pre.length, pre ++ serialize lay (finSelf d.selfShape st1 v) ++ post⟩, (treeNode lay ⟨v, ps⟩ st).2) ∧
+        accessesOf pre.length (flatNode lay ⟨v, ps⟩) =
+          selfGetAcc lay.self pre.length ++ accessesOf pre.length (flatCells lay.cells ps (selfSize lay.self)) ++
+            selfSetAcc lay.self pre.length ∧
+        (accessesOf pre.length (flatNode lay ⟨v, ps⟩)).Sublist (expectedTrace (publishedSk lay) pre.length) ∧
+        (∀ a ∈ accessesOf pre.length (flatNode lay ⟨v, ps⟩),
+          pre.length ≤ a.pos ∧ a.pos + a.size ≤ pre.length + (publishedSk lay).size) ∧
+        cursorAfter pre.length (flatNode lay ⟨v, ps⟩) = pre.length ∧
+        (serialize lay st).length = (publishedSk lay).size ∧
+        Conforms lay (finSelf d.selfShape st1 v)) := by
+  obtain ⟨hself, hcells⟩ := publishFnN_inv hpub
+  have hvis := C05_publish_visits_arms n P d.body lay.cells hcells
+  have hl := C05_publish_ok n P d lay hs hd hpub
+  rw [← hself] at h ⊢
+  obtain ⟨ps, hp, he⟩ := treeNode_of_effA lay st v st1 ((eval_visitsA P rt fuel).1 d.body _ env σ _ v σ' st1 hvis h)
+  obtain ⟨hwf, hsz, htr⟩ := publishedSk_spec lay
+  refine ⟨ps, hp, he, fun hpay pre post => ?_⟩
+  obtain ⟨hacc, hsub, hin, hcur, hrun, hconf⟩ := C05_flat_eq_tree_arms lay ⟨v, ps⟩ st pre post hl hc hpay
+  have hlen := C05_serialize_size lay st hc
+  refine ⟨by rw [he]; exact hrun, hacc, by rw [htr]; exact hsub, ?_, hcur, by rw [hsz]; exact hlen, by rw [he]; exact hconf⟩
+  intro a ha
+  have := hin a ha
+  rw [hlen, ← hsz] at this
+  exact this
+
+/-- **the published layout covers every body** (`Covers`, the hypothesis of the agreement theorems) — no class condition -/
+theorem C05_publishFn_covers_arms (n : Nat) (P : Prog) (d : FnDecl) (lay : LNode) (hpub : publishFnN n P d = some lay) :
+    lay.self = d.selfShape ∧ VisitsA P d.body lay.cells ∧ Covers P lay.cells d.body :=
+  have hi := publishFnN_inv hpub
+  ⟨hi.1, C05_publish_visits_arms n P d.body lay.cells hi.2, (publishFnN_coversA n P d lay hpub).2⟩
+
+/-- `C05_published_same_words_same_eval_future` without `noStateInArmsN`: what an instance of ANY function returns, sample
+after sample, depends only on its flat state words laid out by the published layout -/
+theorem C05_published_same_words_same_eval_future_arms (fuel n : Nat) (P : Prog) (d : FnDecl) (lay : LNode)
+    (samples : List (Rt × Env × Store)) (a b : SNode)
+    (hpub : publishFnN n P d = some lay) (hs : SitesUnique P) (hd : SitesOk d.body)
+    (ha : ConformsS lay a) (hb : ConformsS lay b) (h : serialize lay a = serialize lay b) :
+    instRun fuel P d.selfShape d.body samples a = instRun fuel P d.selfShape d.body samples b := by
+  obtain ⟨hself, _, hcov⟩ := C05_publishFn_covers_arms n P d lay hpub
+  rw [← hself]
+  exact C05_same_words_same_eval_future fuel P lay d.body samples a b (C05_publish_ok n P d lay hs hd hpub) hcov ha hb h
+
+/-- `C05_published_eval_respects_agreement` without `noStateInArmsN` -/
+theorem C05_published_eval_respects_agreement_arms (n : Nat) (P : Prog) (d : FnDecl) (lay : LNode) (rt : Rt) (fuel : Nat)
+    (env : Env) (σ : Store) (st₁ st₂ : SNode)
+    (hpub : publishFnN n P d = some lay) (hs : SitesUnique P) (hd : SitesOk d.body)
+    (hag : AgreeN lay.cells st₁ st₂) :
+    SRel (RE lay.cells) (eval fuel P rt env d.body σ st₁) (eval fuel P rt env d.body σ st₂) :=
+  C05_eval_respects_agreement P rt fuel d.body lay.cells env σ st₁ st₂ (C05_publish_ok n P d lay hs hd hpub)
+    (C05_publishFn_covers_arms n P d lay hpub).2.2 hag
+
+/-! non-vacuity of the `_arms` theorems on the witness of the former finding F3, `dsp() = if (now > 2) counter() else
+counter()*100`, layout `[child 1 (self), child 2 (self)]`: a call in which the `else` arm runs has the payload
+`[skip, child 9]`; on the storage `[5, 7]` it reads and writes the SECOND word only (`get 1`, `set 1`), which the generalised
+checker accepts and the strict one rejects; the tree operation leaves the first instance alone -/
+example :
+    let lay : LNode := ⟨none, [.child 1 (some .num) [], .child 2 (some .num) []]⟩
+    let pay : NPay := ⟨.num 0, [.skip, .child (.num 9) []]⟩
+    NPayOkA lay pay ∧ lay.Ok ∧
+    accessesOf 0 (flatNode lay pay) = [⟨.get, 1, 1⟩, ⟨.set, 1, 1⟩] ∧
+    conformsSel (publishedSk lay) (accessesOf 0 (flatNode lay pay)) (cursorAfter 0 (flatNode lay pay)) = true ∧
+    conforms (publishedSk lay) (accessesOf 0 (flatNode lay pay)) (cursorAfter 0 (flatNode lay pay)) = false ∧
+    vmRun ⟨0, [5, 7]⟩ (flatNode lay pay) = some (⟨0, [5, 9]⟩, [7]) := by
+  intro lay pay
+  refine ⟨?_, ?_, ?_, ?_, ?_, ?_⟩
+  · simp [NPayOkA, RetOk, PayOkAL, PayOkA, lay, pay, flattenVal, shapeSize]
+  · simp [LNode.Ok, LayOkL, LayOk, sitesOf, LCell.site, lay]
+  · rfl
+  · decide +kernel
+  · decide +kernel
+  · decide +kernel
+
 /-- `publishFn` / `publishE` / `noStateInArms` are the instances at depth `|P.fns|` -/
 theorem C05_publishFn_is_depth_instance (P : Prog) (d : FnDecl) (e : Expr) :
     publishFn P d = publishFnN P.fns.length P d ∧ publishE P e = publishEN P.fns.length P e ∧
@@ -625,7 +875,7 @@ example :
 
 /-! non-vacuity of `C05_published_instance_is_flat_call_stateless_arms`: `g(y) = y*2`, `h(y) = if y then g(y) else 3`,
 `dsp(x) = mem(x) + (if x then h(x) else g(1) + g(2))`: outside the narrow class, inside the wide one; the labelled layout
-lists the (zero-sized) cells of the `then` arm only, the bare skeleton is `F[M1]` -/
+lists the (zero-sized) cells of both arms, `then` first, the bare skeleton is `F[M1]` -/
 example :
     let gF : FnDecl := ⟨"g", ["y"], .bin .mul (.var "y") (.lit 2), none⟩
     let hF : FnDecl := ⟨"h", ["y"], .ite (.var "y") (.call "g" [.var "y"] 0) (.lit 3), none⟩
@@ -633,7 +883,7 @@ example :
       .bin .add (.mem (.var "x") 0)
         (.ite (.var "x") (.call "h" [.var "x"] 1) (.bin .add (.call "g" [.lit 1] 2) (.call "g" [.lit 2] 3))), none⟩
     let P : Prog := ⟨[], [gF, hF], dspF⟩
-    let lay : LNode := ⟨none, [.mem 0, .child 1 none [.child 0 none []]]⟩
+    let lay : LNode := ⟨none, [.mem 0, .child 1 none [.child 0 none []], .child 2 none [], .child 3 none []]⟩
     publishFn P dspF = some lay ∧ noStateInArms P dspF.body = false ∧ noStatefulInArms P dspF.body = true ∧
     SitesUnique P ∧ SitesOk dspF.body ∧ publishedSk lay = .fn [.mem 1] := by
   intro gF hF dspF P lay
@@ -643,21 +893,33 @@ example :
     rcases hd with rfl | rfl <;> simp [SitesOk, siteLens, siteLensL, gF, hF]
   · simp [SitesOk, siteLens, siteLensL, dspF]
 
-/-- **outside the class the layout is not visited (finding F3, model level).**  `counter() = self + 1`,
-`dsp() = if (now > 2) counter() else counter()*100`: mirgen publishes ONE child (the `then` arm's, the sizes tie), the
-class predicate is false, and no layout whatsoever is visited in order by this body — the reference semantics keeps
-two instances of `counter` (one per call site), the published storage has room for one -/
-theorem C05_state_in_arms_not_visited :
+/-- **state inside `if` arms: every call site owns its own cell (formerly finding F3, repaired by F3-1).**
+`counter() = self + 1`, `dsp() = if (now > 2) counter() else counter()*100`: the compiler publishes TWO children, one per
+call site, `then` arm first (before the repair: one, overlaid); the layout is well formed (`LNode.Ok`), covers both call
+sites (`Covers`), and the bare skeleton has two one-word instances.  The program is outside the class of the strict
+straight-line discipline (`Visits` demands stateless arms: a call visits only the cells of the arm taken), which is what
+`VisitsA` / `C05_eval_state_effect_is_tree_ops_arms` generalise -/
+theorem C05_state_in_arms_own_cells :
     let counterF : FnDecl := ⟨"counter", [], .bin .add .self (.lit 1), some .num⟩
     let dsp : FnDecl := ⟨"dsp", [],
       .ite (.bin .gt .now (.lit 2)) (.call "counter" [] 1) (.bin .mul (.call "counter" [] 2) (.lit 100)), none⟩
     let P : Prog := ⟨[], [counterF], dsp⟩
-    publishFn P dsp = some ⟨none, [.child 1 (some .num) []]⟩ ∧ noStateInArms P dsp.body = false ∧
-    ∀ seg, ¬ Visits P dsp.body seg := by
-  intro counterF dsp P
-  refine ⟨rfl, rfl, ?_⟩
-  intro seg h
-  cases h with
-  | ite _ ha _ => exact visits_call_ne_nil ha
+    let lay : LNode := ⟨none, [.child 1 (some .num) [], .child 2 (some .num) []]⟩
+    publishFn P dsp = some lay ∧ noStateInArms P dsp.body = false ∧ lay.Ok ∧ Covers P lay.cells dsp.body ∧
+    publishedSk lay = .fn [.fn [.feed 1], .fn [.feed 1]] ∧ (∀ seg, ¬ Visits P dsp.body seg) := by
+  intro counterF dsp P lay
+  have hfind : ∀ d, findFn P.fns "counter" = some d → d = counterF := by
+    intro d hd
+    simp [P, findFn, counterF] at hd
+    exact hd.symm
+  refine ⟨rfl, rfl, by simp [lay, LNode.Ok, LayOkL, LayOk, sitesOf, LCell.site], ?_, rfl, ?_⟩
+  · refine .ite (.bin .now .lit) ?_ (.bin ?_ .lit)
+    · exact .call (self := some .num) (cells' := []) (by simp) (by simp [lay])
+        (fun d hd => by rw [hfind d hd]) (fun d hd => by rw [hfind d hd]; exact .bin .self .lit)
+    · exact .call (self := some .num) (cells' := []) (by simp) (by simp [lay])
+        (fun d hd => by rw [hfind d hd]) (fun d hd => by rw [hfind d hd]; exact .bin .self .lit)
+  · intro seg h
+    cases h with
+    | ite _ ha _ => exact visits_call_ne_nil ha
 
 end Mimium.Publish
